@@ -35,7 +35,9 @@ GReopen ==
     /\ ~LastIs("reopen")
     /\ mem \/ LastIs("flush") \/ LastIs("commit")
     /\ Final => After("reopen") = {}
-    /\ Reopen
+    \* only when the next timestamp does not depend on what a compaction really dropped
+    /\ MaxOf({e.ts : e \in db \ may}) = MaxOf({e.ts : e \in db})
+    /\ Reopen({})
     /\ H([op |-> "reopen", nextTs |-> nextTs', lv |-> lv', db |-> db, may |-> may])
 
 GPrepare(m) == Prepare(m) /\ H([op |-> "prepare", mode |-> m, level |-> level', lv |-> lv', flatten |-> (m = "incr" /\ Top = 0 /\ Flattens)])
